@@ -39,49 +39,6 @@ theorem lookup_refines (hc : StrictWeak cmp) (k : K) (x : Node K V) :
     have hsc : Sorted cmp (toList c) := (List.pairwise_append.mp (List.pairwise_append.mp hsort).1).2.1
     rw [sget_at_child hc hsort b1 (b2 rfl), ih h' (hall c hcm).1 hsc]
 
-/-- the comparison count of a lookup: at most one comparison per entry of each node on the path -/
-theorem lookupCost_le (cmp : K → K → Int) (k : K) (x : Node K V) :
-    ∀ h, Bal h x → x.n ≤ maxKVs → (lookupCost cmp k x : Int) ≤ maxKVs * (h + 1) := by
-  have hsc : ∀ kvs : List (K × V), searchCost cmp k kvs ≤ kvs.length := by
-    intro kvs
-    induction kvs with
-    | nil => simp [searchCost]
-    | cons kv rest ih =>
-      obtain ⟨k', v'⟩ := kv
-      simp only [searchCost, List.length_cons]
-      split
-      · omega
-      · split <;> omega
-  have hmax : (0 : Int) ≤ maxKVs := by decide
-  fun_induction lookupCost cmp k x with
-  | case1 id kvs kids i hs =>
-    intro h hb hn
-    simp only [node_n] at hn
-    have := hsc kvs
-    have h2 : maxKVs * ((h : Int) + 1) = maxKVs * h + maxKVs := by rw [Int.mul_add, Int.mul_one]
-    have h3 : 0 ≤ maxKVs * (h : Int) := Int.mul_nonneg hmax (by omega)
-    omega
-  | case2 id kvs kids i hs hnone =>
-    intro h hb hn
-    simp only [node_n] at hn
-    have := hsc kvs
-    have h2 : maxKVs * ((h : Int) + 1) = maxKVs * h + maxKVs := by rw [Int.mul_add, Int.mul_one]
-    have h3 : 0 ≤ maxKVs * (h : Int) := Int.mul_nonneg hmax (by omega)
-    omega
-  | case3 id kvs kids i hs c hcc ih =>
-    intro h hb hn
-    simp only [node_n] at hn
-    have hne : kids ≠ [] := by intro h0; subst h0; simp at hcc
-    obtain ⟨h', rfl, hlen, hall⟩ := bal_inner hne hb
-    have hcm := List.mem_of_getElem? hcc
-    have := ih h' (hall c hcm).1 (hall c hcm).2.2
-    have h1 := hsc kvs
-    have h2 : maxKVs * (((h' + 1 : Nat) : Int) + 1) = maxKVs * ((h' : Int) + 1) + maxKVs := by
-      rw [Int.mul_add, Int.mul_one]; simp
-    rw [h2]
-    push_cast
-    omega
-
 /-- a balanced subtree of height `h` whose nodes hold at least `minKVs` entries (the subtree root at
 least `lo`) holds at least `(lo + 1) * (minKVs + 1) ^ h - 1` entries -/
 theorem length_toList_ge (x : Node K V) :
